@@ -403,8 +403,8 @@ func TestRaftLog(t *testing.T) {
 			}
 		}
 		var cl []string
-		for k := range classes {
-			if k != "nontrivial" {
+		for k, v := range classes {
+			if k != "nontrivial" && v {
 				cl = append(cl, k)
 			}
 		}
